@@ -5,14 +5,16 @@ real wallet.Wallet over a simulated chain; every created transaction is judged
 by the harness' independent ledger (oracle) and every request is re-evaluated
 on the selection model (Select/EligibleCorr.v)."""
 import concurrent.futures as cf
+import re
 import tempfile
 
 from vlib import *
 
 ATYPE = {"p2pkh": "P2PKH", "np2wpkh": "NP2WPKH", "p2wpkh": "P2WPKH", "p2tr": "P2TR"}
 CODES = {1: "input outside the model's eligible set", 2: "input used twice",
-         5: "explicit selection: inputs differ from the model's", 6: "signed/unsigned differs from the model",
-         7: "selection refused, the model's is not", 8: "other error, but the model's selection loop refuses"}
+         5: "explicit selection: inputs differ (as a multiset) from the model's, or the model's selection loop refuses",
+         6: "signed/unsigned differs from the model's sign / skip decision"}
+IMPORTED = 2147483647          # waddrmgr.ImportedAddrAccount
 
 
 def c_op(o):
@@ -20,71 +22,85 @@ def c_op(o):
 
 
 def c_cand(c):
-    own = "None" if c["own"] is None else "(Some {| o_scope := %s; o_acct := %s |})" % (cN(c["own"][0]), cN(c["own"][1]))
+    own = "None" if c["own"] is None else "(Some {| o_scope := (%s, %s); o_acct := %s; o_priv := %s |})" % (
+        cN(c["own"][0]), cN(c["own"][1]), cN(c["own"][2]), cbool(c.get("priv", False)))
     return ("{| c_utxo := {| u_op := %s; u_amt := %s; u_height := %s; u_hash := 0%%N; u_coinbase := %s |}; "
             "c_owner := %s; c_atype := %s; c_vsize := %s |}") % (
         c_op(c["op"]), cZ(c["amt"]), cZ(c["h"]), cbool(c["cb"]), own, ATYPE.get(c["at"], "OtherScript"), cZ(c["vs"]))
 
 
 def c_req(r):
-    out = {"ok": "(ROk %s)" % clist([c_op(o) for o in r["inputs"]]), "refused": "RRefusedSelection",
-           "error": "ROtherError"}[r["outcome"]]
-    return ("{| q_cands := %s;\n     q_ctx := {| x_height := %s; x_maturity := %s; x_locked := %s; x_watch_only := false |};\n"
+    out = "(ROk %s)" % clist([c_op(o) for o in r["inputs"]]) if r["outcome"] == "ok" else "RError"
+    return ("{| q_cands := %s;\n     q_ctx := {| x_height := %s; x_maturity := %s; x_locked := %s; x_watch_only := %s; x_wallet_wo := %s |};\n"
             "     q_acct := %s; q_scope := %s; q_minconf := %s; q_rate := %s; q_strategy := %s; q_explicit := %s;\n"
-            "     q_allow := %s; q_dry := %s; q_sorted := %s; q_outcome := %s; q_signed := %s |}") % (
+            "     q_allow := %s; q_dry := %s; q_outcome := %s; q_signed := %s |}") % (
         clist([c_cand(c) for c in r["cands"]]), cZ(r["height"]), cZ(r["maturity"]), clist([c_op(o) for o in r["locked"]]),
-        cN(r["acct"]), copt(cN(r["scope"]) if r["scope"] else None), cZ(r["minconf"]), cZ(r["rate"]),
+        cbool(r["wo"]), cbool(r["wallet_wo"]), cN(r["acct"]),
+        copt("(%s, %s)" % (cN(r["scope"]), cN(r["coin"])) if r["scope"] else None),
+        cZ(r["minconf"]), cZ(r["rate"]),
         "Random" if r["strat"] == "random" else "Largest", clist([c_op(o) for o in r["explicit"]]),
-        copt(clist([c_op(o) for o in r["allow"]]) if r["has_allow"] else None), cbool(r["dry"]), cbool(r["sorted"]),
-        out, cbool(r["signed"]))
+        copt(clist([c_op(o) for o in r["allow"]]) if r["has_allow"] else None), cbool(r["dry"]),
+        out, copt(cbool(r["signed"]) if r.get("signed_observable") else None))
 
 
 class C06(Check):
     ID = "C06"
-    RULE = ("real wallet.Wallet (regtest, bbolt) over a simulated chain.Interface, driven through the build-tagged notification hooks. "
-            "systematic: for each of the 4 default address types (BIP44 P2PKH, BIP49 nested P2WPKH / P2WPKH change, BIP84 P2WPKH, BIP86 P2TR) "
-            "x {SendOutputs, CreateSimpleTx, SendOutputsWithInput, FundPsbt+FinalizePsbt}: automatic (largest-first, random) and explicit selections; "
+    RULE = ("real wallet.Wallet (regtest, bbolt) driven through the build-tagged notification hooks; the chain backend is the harness' own validating node "
+            "(answers SendRawTransaction from the harness ledger: already in mempool / confirmed, unknown or conflicting input, failing script -> refused; "
+            "else accepted = PUBLISHED; scripted reject / accept override it). Every wallet has accounts 0..2 in the four default scopes (BIP44 P2PKH, BIP49, BIP84, BIP86), "
+            "a CUSTOM key scope (84, 1) sharing BIP84's purpose (credited through the exported TxStore as the registering application would), two WATCH-ONLY accounts "
+            "imported by extended public key (scopes 84, 86) and six IMPORTED keys (P2PKH compressed and UNCOMPRESSED, P2WPKH, nested P2WPKH, P2TR with private key; "
+            "P2WPKH public key only); one scenario family runs a wallet that is watch-only as a whole. "
+            "systematic: per address type x {SendOutputs, CreateSimpleTx, SendOutputsWithInput, FundPsbt+FinalizePsbt}: automatic (largest-first, random) and explicit selections; "
             "one output in each ineligible state {spent by an unconfirmed / confirmed tx, locked, leased, unconfirmed at minconf 1, 1 conf at minconf 2, "
-            "5 conf at minconf 6, coinbase at 99 conf, other account, other key scope, reorganised out, coinbase reorganised out} x "
-            "{explicit selection next to a good output, SendOutputsWithInput, automatic selection that could only succeed by using it}; the good side of every "
-            "boundary (2/6/100 confirmations, lease expired at its deadline, released, unlocked); duplicate / unknown / filtered explicit outpoints; successive sends, "
-            "rejected broadcast, created-but-unpublished, FundPsbt with caller inputs (valid, duplicate, unknown, leased, locked, spent); "
-            "minconf above the coinbase maturity (101/105/150 with a coinbase output at 100..minconf-1 confirmations, automatic and explicit, and the reached side); "
-            "leases and locks on still unconfirmed outputs followed by minconf-0 requests; two unconfirmed transactions spending the same wallet output with one of "
-            "them forgotten (Wallet.RemoveDescendants, or the wallet's own transaction published late and rejected) or one of them confirmed. "
-            "random: histories of 18-42 (thorough: -70) operations over accounts 0..2 of all four scopes: receipts (1-4 outputs, dust-size to 5 BTC, external/internal "
-            "branch, confirmed or unconfirmed), coinbase receipts brought to 99/100/101 and up to 151 confirmations, blocks including all/none/half of the pending transactions, "
-            "reorganisations (depth 1; deeper only when the wallet can detach two blocks in a row), third-party spends of wallet outputs (also of outputs that only unconfirmed transactions spend: double-spend pairs), forgetting an unconfirmed "
-            "transaction, late publication (accepted / rejected) of transactions created earlier, LockOutpoint/UnlockOutpoint, "
-            "LeaseOutput/ReleaseOutput with a test clock, and requests with minconf in {0,1,2,6,101,105,150}, 5 fee rates, both strategies or none, 1-3 outputs "
-            "(5 external script kinds or own addresses) sized 5%..120% of the eligible total, explicit selections (valid, duplicate, unknown, spent, locked, "
-            "leased, immature, below minconf, foreign), UTXO filters, dry runs, publication through the backend (accepted or rejected). "
-            "Oracle per created transaction: the harness' own ledger (BIP32 derivation of every wallet script from the seed, the notifications it delivered, "
-            "its lock/lease calls) and txscript.NewEngine(StandardVerifyFlags) on every input. "
-            "non-trivial = history with at least one created transaction or refused selection; distinct by input")
-    N_QUICK = 220
+            "5 conf at minconf 6, coinbase at 99 conf, other account, other key scope, SAME PURPOSE OTHER COIN TYPE (both directions), imported key / watch-only account selected for account 0, "
+            "reorganised out, coinbase reorganised out} x {explicit selection next to a good output, SendOutputsWithInput, automatic selection that could only succeed by using it}; "
+            "the good side of every boundary; duplicate / unknown / filtered explicit outpoints; every imported key and both watch-only accounts through every API "
+            "(sign / skip decision: signed and every input verified, or unsigned; public-only key next to a private one); "
+            "created -> published accepted / rejected (scripted or by the node's own rules) -> inputs gone / spendable again, also across RESTARTS of the wallet (reopen + start-up re-broadcast; "
+            "locks forgotten, leases kept); 2 and 3 SendOutputs calls issued AT ONCE from goroutines (three equal coins / one coin); "
+            "minconf above the coinbase maturity; leases and locks on unconfirmed outputs; double-spend pairs with one side forgotten or confirmed; FundPsbt with caller inputs. "
+            "random: histories of 18-42 (thorough: -70) operations: receipts on every account kind above (1-4 outputs, dust-size to 5 BTC, both branches, confirmed or not), coinbase receipts "
+            "brought to 99/100/101..151 confirmations, blocks including all/none/half of the pending transactions, reorganisations, third-party spends (also double-spend pairs), forgetting an "
+            "unconfirmed transaction, late publication of held transactions (node's rules / scripted reject / scripted accept), restarts, concurrent sends, LockOutpoint/UnlockOutpoint, "
+            "LeaseOutput/ReleaseOutput with a test clock, and requests with minconf in {0,1,2,6,101,105,150}, 5 fee rates, both strategies or none, 1-3 outputs sized 5%..120% of the eligible total, "
+            "explicit selections (valid, duplicate, unknown, spent, locked, leased, immature, below minconf, foreign), UTXO filters, dry runs. "
+            "Oracle per created transaction: the harness' own ledger (BIP32 derivation of every wallet script, the keys and accounts it imported, the notifications it delivered, its lock/lease calls, "
+            "what its node accepted) and txscript.NewEngine(StandardVerifyFlags) on every input of every result for keys the wallet holds (and on every script a watch-only result carries). "
+            "REFUSED = the call returned an error AND no transaction was created, recorded or sent (never the text of the error). "
+            "non-trivial = history with at least one created transaction or refused explicit selection; distinct by input")
+    N_QUICK = 120
     N_THOROUGH = 4000
     SHARD = 30
     ASSUMPTIONS = [
-        "chain-consistent histories (Tx/Hist.v chain_consistent) over a well-formed universe; wallet never watch-only in the runs (the model carries the flag)",
-        "the address manager's script -> (scope, account) lookup is a parameter of the model (property C03 is about its correctness); the run-time oracle "
-        "uses an independent BIP32 derivation instead",
-        "'published inputs are never reused' is stated while the publishing transaction is known to the ledger (a double spend confirmed by the chain removes it "
-        "and frees its other inputs)",
+        "chain-consistent histories (Tx/Hist.v chain_consistent) over a well-formed universe",
+        "the address manager's script -> (scope, account, private key held) lookup is a parameter of the model (property C03 is about its correctness); the run-time oracle "
+        "uses an independent BIP32 derivation and the harness' own record of imported keys and accounts instead",
+        "'published inputs are never reused' is stated while the ledger knows the publishing transaction (never_displaced): a conflicting transaction confirmed by the chain, "
+        "a detached coinbase ancestor or an explicit removal frees its other inputs",
+        "requests are modelled one at a time; concurrent SendOutputs calls are run and every created transaction is judged against the ledger before the race, but two of them "
+        "selecting the same coin is only counted (concurrent_sends_shared_coin): the serialised section of the code ends before the spend is recorded - outside the letter of the property "
+        "('successive sends', 'once ... published'), reported as a defect",
         "FundPsbt with caller-supplied inputs: only ownership and single use are asserted (DESIGN section 6, S13); leased/locked/spent inputs are accepted there "
         "and counted in the input distribution (psbt_inputs_accepted:*)",
-        "FinalizePsbt on packets with P2PKH inputs is not asserted (the PSBT signer is documented for P2WKH, nested P2WKH and taproot key spends); counted as "
-        "psbt_p2pkh_inputs_not_finalized",
+        "FinalizePsbt is not one of the property's entry points: a P2PKH input it 'signs' with a witness (invalid, yet reported as success) is counted "
+        "(finalized_psbt_p2pkh_input_invalid; -psbt-p2pkh makes it a violation); every other input of a finalized packet must verify",
+        "watch-only results are outside the signature clause; that SendOutputs hands the unsigned result of a watch-only ACCOUNT to the backend instead of returning ErrTxUnsigned "
+        "is counted (unsigned_transaction_handed_to_backend)",
+        "outputs of non-default key scopes are not credited by the wallet's notification handler; the custom scope's coins are credited through the exported TxStore",
         "int32/int64 wrap-around not modelled; heights < 2^31, amounts < 2^53 in the runs",
     ]
     PARTIAL_CLAUSES = [
-        "signature validity is not a Coq theorem (cryptographic): it is exercised on every input of every non-dry-run result with the real script engine "
-        "(txscript.NewEngine, StandardVerifyFlags, independent previous-output fetcher), for P2PKH, nested P2WPKH, P2WPKH and P2TR inputs",
-        "serialisation of concurrent requests through the txCreator goroutine is not modelled here (requests are issued one at a time)",
+        "signature validity is not a Coq theorem (cryptographic): it is exercised on every input of every signed result with the real script engine "
+        "(txscript.NewEngine, StandardVerifyFlags, independent previous-output fetcher), for P2PKH (HD, imported compressed and uncompressed), nested P2WPKH, P2WPKH and P2TR inputs, "
+        "HD, custom-scope and imported keys",
+        "concurrency: not modelled (see assumptions); exercised by racing SendOutputs calls",
     ]
     EXTRA_TRUSTED = [
-        "harness/cmd/extract-c06 (go/ast reading of the explicit selection loop of wallet/createtx.go) and lib/extract_c06.py",
-        "build-tagged hooks wallet/verif_hooks.go, wtxmgr/verif_hooks.go (deterministic notification delivery, test clock)",
+        "lib/extract_c06.py: go/ast reading of the explicit selection loop (harness/cmd/extract-c06; in txToOutputs or a helper it calls); when a shape is not recognised the fact is "
+        "determined by running the witness scenarios on the code built from the repository (harness/cmd/c06 -probe); evidence field facts_source says which path ran",
+        "build-tagged hooks wallet/verif_hooks.go, wtxmgr/verif_hooks.go (deterministic notification delivery, start-up re-broadcast, test clock)",
+        "harness/cmd/c06/backend.go: the validating node the wallet publishes to",
         "chaincfg.RegressionNetParams.CoinbaseMaturity = 100 is read from btcd at run time, a parameter of the model",
     ]
 
@@ -104,7 +120,7 @@ class C06(Check):
         return pre + args
 
     def nontrivial(self, c):
-        return any(r["outcome"] in ("ok", "refused") for r in c["obs"]["reqs"])
+        return any(r["outcome"] == "ok" or (r["outcome"] == "error" and r["explicit"]) for r in c["obs"]["reqs"])
 
     def oracle_kinds(self, case):
         return [(v["kind"], v["site"]) for v in case.get("viol", [])]
@@ -117,13 +133,33 @@ class C06(Check):
             reqs.append(r)
         return dict(input=c["in"], requests=reqs, violations=c.get("viol"), tags=c.get("tags"))
 
+    def facts_source(self):
+        src, detail = "unknown", ""
+        try:
+            txt = open(os.path.join(COQ, "Generated", "SelectFacts.v")).read()
+            m = re.search(r"\(\* facts source: (\w+)(.*?)\*\)", txt, re.S)
+            if m:
+                src, detail = m.group(1), re.sub(r"\s+", " ", m.group(2)).strip()
+        except OSError:
+            pass
+        return src, detail
+
     def extra_coverage(self, cases):
         reqs = [r for c in cases for r in c["obs"]["reqs"]]
+        notes = {}
+        for c in cases:
+            for k, v in (c["obs"].get("notes") or {}).items():
+                notes[k] = notes.get(k, 0) + v
+        src, detail = self.facts_source()
         return dict(requests=len(reqs), created=sum(1 for r in reqs if r["outcome"] == "ok"),
-                    refused_selections=sum(1 for r in reqs if r["outcome"] == "refused"),
+                    refused_explicit_selections=sum(1 for r in reqs if r["outcome"] == "error" and r["explicit"]),
                     requests_compared_with_model=sum(1 for r in reqs if r["in_model"]),
+                    facts_source=src, facts_source_detail=detail,
                     arrangement_compared=getattr(self, "arr_cmp", 0),
                     arrangement_differs_from_model=getattr(self, "arr_diff", 0),
+                    errors_although_model_selection_accepts=getattr(self, "soft9", 0),
+                    explicit_order_differs=getattr(self, "soft10", 0),
+                    observations_not_violations=notes,
                     deep_reorgs=any(c["obs"].get("deep_reorgs") for c in cases),
                     harness_problems=[c["obs"]["problem"] for c in cases if c["obs"].get("problem")][:3])
 
@@ -140,13 +176,13 @@ Definition bad := Eval vm_compute in mismatches cases.
 Print bad.
 Definition det := Eval vm_compute in details cases.
 Print det.
-Definition soft := Eval vm_compute in [soft_count cases; soft_compared cases].
+Definition soft := Eval vm_compute in [soft_count cases; soft_compared cases; soft_count_code 9 cases; soft_count_code 10 cases].
 Print soft.
 """ % clist(["\n " + r for r in rows])
 
     def evaluate_model(self, cases):
         mism, logs, problems = [], "", []
-        self.arr_diff, self.arr_cmp = 0, 0
+        self.arr_diff, self.arr_cmp, self.soft9, self.soft10 = 0, 0, 0, 0
         shards = [(s, cases[s:s + self.SHARD]) for s in range(0, len(cases), self.SHARD)]
 
         def run(sh):
@@ -164,9 +200,11 @@ Print soft.
                 continue
             if bad:
                 logs += "shard %d: %s\n" % (start, (parse_printed(out, "det") or "")[:1500])
-            soft = parse_nat_list(parse_printed(out, "soft")) or [0, 0]
+            soft = (parse_nat_list(parse_printed(out, "soft")) or []) + [0, 0, 0, 0]
             self.arr_diff += soft[0]
-            self.arr_cmp += soft[1] if len(soft) > 1 else 0
+            self.arr_cmp += soft[1]
+            self.soft9 += soft[2]
+            self.soft10 += soft[3]
             mism.extend(start + b for b in bad)
         for c in cases:
             if c["obs"].get("problem"):
